@@ -29,6 +29,7 @@ ASSUMPTIONS = ["store_bucket under an existing id overwrites (both bucket broker
 
 
 def run(ctx: Ctx) -> None:
+    bucket_brokers(ctx)
     order(ctx)
     off(ctx)
     fields(ctx)
@@ -290,3 +291,39 @@ def validate(ctx: Ctx, rule="R-C13-VALIDATE") -> None:
         ex |= flow.reach(g, ex, flow.NORMAL_KINDS + ("raise",))
         ctx.check(any(r.id in ex for r in raises), rule, f, "failing probe -> ValueError", "a wrong bucket class is rejected at construction",
                   "a failing bucket-class probe does not end in ValueError", instance="Connection validation raises")
+
+
+def bucket_brokers(ctx: Ctx, rule="R-C13-FIELDS") -> None:
+    """store under the id / read the same id back, in both bucket brokers; Redis expiry from timestamp + ttl."""
+    im = "repid.connections.in_memory.bucket_broker.InMemoryBucketBroker"
+    st = ctx.func(f"{im}.store_bucket")
+    asg = [n for n in ast.walk(st.node) if isinstance(n, ast.Assign) and isinstance(n.targets[0], ast.Subscript)]
+    ok = len(asg) == 1 and dotted(asg[0].targets[0].slice) == "id_" and dotted(asg[0].value) == "payload" and "storage" in unparse(asg[0].targets[0].value)
+    ctx.check(ok, rule, st, "in-memory store_bucket: storage[id_] = payload", "each store overwrites the bucket of that id", f"in-memory store_bucket does {unparse(asg[0]) if asg else 'nothing'}", instance="in-memory store")
+    gb = ctx.func(f"{im}.get_bucket")
+    rets = [r for r in ast.walk(gb.node) if isinstance(r, ast.Return)]
+    ok = len(rets) == 1 and isinstance(rets[0].value, ast.Call) and isinstance(rets[0].value.func, ast.Attribute) and rets[0].value.func.attr == "get" and dotted(rets[0].value.args[0]) == "id_" \
+        and "storage" in unparse(rets[0].value.func.value)
+    ctx.check(ok, rule, gb, "in-memory get_bucket: storage.get(id_)", "reads the bucket of that id", f"in-memory get_bucket returns {unparse(rets[0].value) if rets else '?'}", instance="in-memory get")
+    init = ctx.func(f"{im}.__init__")
+    bc = [n for n in ast.walk(init.node) if isinstance(n, ast.Assign) and any(dotted(t) == "self.BUCKET_CLASS" for t in n.targets)]
+    t = C.negate_aware_ifexp(bc[0].value) if bc else None
+    ok = t is not None and dotted(t[0]) == "use_result_bucket" and dotted(t[1]) == "ResultBucket" and dotted(t[2]) == "ArgsBucket"
+    ctx.check(ok, rule, init, "results broker builds ResultBucket", "ResultBucket if use_result_bucket else ArgsBucket", "in-memory bucket broker's bucket class selection changed", instance="in-memory bucket class")
+    rd = "repid.connections.redis.bucket_broker.RedisBucketBroker"
+    st = ctx.func(f"{rd}.store_bucket")
+    sc = [c for c in ast.walk(st.node) if isinstance(c, ast.Call) and dotted(c.func) == "self.conn.set"]
+    ok = len(sc) == 1 and dotted(sc[0].args[0]) == "id_" and unparse(sc[0].args[1]) == "payload.encode()"
+    ctx.check(ok, rule, st, "redis store_bucket: SET id_ <encoded bucket>", "set(id_, payload.encode())", f"redis store_bucket does {unparse(sc[0])[:80] if sc else 'nothing'}", instance="redis store")
+    if sc:
+        ex = C.kw(sc[0], "exat")
+        t = C.negate_aware_ifexp(ex) if ex is not None else None
+        ok = t is not None and isinstance(t[0], ast.Compare) and dotted(t[0].left) == "payload.ttl" and C.is_const(t[0].comparators[0], None) and C.is_const(t[1], None) \
+            and isinstance(t[2], ast.BinOp) and isinstance(t[2].op, ast.Add) and {dotted(t[2].left), dotted(t[2].right)} == {"payload.timestamp", "payload.ttl"}
+        ctx.check(ok, rule, st, "redis bucket expiry = timestamp + ttl, none without ttl", "exat=payload.timestamp + payload.ttl if ttl is not None else None",
+                  f"redis store_bucket expires the bucket with exat={unparse(ex) if ex is not None else '<missing>'}: the configured result time-to-live is not honoured", instance="redis expiry")
+    gb = ctx.func(f"{rd}.get_bucket")
+    gc = [c for c in ast.walk(gb.node) if isinstance(c, ast.Call) and dotted(c.func) == "self.conn.get"]
+    dc = [c for c in ast.walk(gb.node) if isinstance(c, ast.Call) and dotted(c.func) == "self.BUCKET_CLASS.decode"]
+    ok = len(gc) == 1 and dotted(gc[0].args[0]) == "id_" and len(dc) == 1 and C.utext(gb, dc[0].args[0]).endswith(".decode()")
+    ctx.check(ok, rule, gb, "redis get_bucket: GET id_ -> BUCKET_CLASS.decode", "reads and decodes the bucket of that id", "redis get_bucket does not read id_ and decode it with the broker's bucket class", instance="redis get")
